@@ -1,10 +1,12 @@
 package fpgo
 
 // C06: LinkedListQueue behaves as an ideal double-ended sequence for every operation history.
-// (A) step harness: from every CANONICAL state (n list nodes, p pooled nodes, built directly through the unexported
-//     fields, values symbolic) two operations with symbolic op codes, then a full drain in one of four patterns;
-//     every return value / error / Count is compared with an ideal deque. Because canonical states are closed under
-//     the operations (every reachable state is canonical), this covers histories of any length that keep <= n nodes.
+// (A) step harness: from every state "n values queued, p recycled nodes pooled" (reached through the public API:
+//     n+p offers, p head removals; values symbolic) two operations chosen from the whole API, then a full drain in
+//     one of four patterns; every return value / error / Count is compared with an ideal deque. Every reachable
+//     state is, up to node identity, of this (n, p) shape, so this covers one-and-two-step behaviour from all of
+//     them with n <= 3 (thorough 4), p <= 2. Nothing here touches unexported fields: a representation change that
+//     keeps the behaviour cannot raise an alarm.
 // (B) bounded histories from NewLinkedListQueue(): K operations + drain (directly replayable public-API runs).
 // sync.Pool.Get is nondeterministic (fresh node or any node previously Put), explored as a decision.
 
@@ -96,30 +98,17 @@ func c06Drain(q *LinkedListQueue[int], m *c06Model, mode int) {
 	c06Apply("drained/", "Pop", q, m)
 }
 
-// c06Canonical builds the canonical representation of a queue holding n values with p pooled nodes.
+// c06Canonical brings a fresh queue, through the public API only, into the state "n values queued, p recycled nodes
+// in the node pool": n+p offers followed by p head removals (every step compared with the ideal deque as well).
 func c06Canonical(n, p int) (*LinkedListQueue[int], *c06Model) {
 	q := NewLinkedListQueue[int]()
 	m := &c06Model{}
-	var prev *DoublyListItem[int]
-	for i := 0; i < n; i++ {
-		v := vfInt("init")
-		m.items = append(m.items, v)
-		node := &DoublyListItem[int]{Val: &v, Prev: prev}
-		if prev == nil {
-			q.first = node
-		} else {
-			prev.Next = node
-		}
-		prev = node
+	for i := 0; i < n+p; i++ {
+		c06Apply("setup/", "Offer", q, m)
 	}
-	q.last = prev
-	q.count = n
-	var pool *DoublyListItem[int]
 	for i := 0; i < p; i++ {
-		pool = &DoublyListItem[int]{Next: pool}
+		c06Apply("setup/", "Shift", q, m)
 	}
-	q.nodePoolFirst = pool
-	q.nodeCount = p
 	return q, m
 }
 
